@@ -135,11 +135,13 @@ fn filename_comparator(file1: &PathBuf, file2: &PathBuf) -> Ordering {
     let a2 = name2.split('.').collect::<Vec<&str>>();
     let mut date_str1 = a1[2];
     let mut date_str2 = a2[2];
+    let mut date_idx = 2;
 
     // in case of file name contains pid, skip it, like Sentinel-Admin-metrics.log.pid22568.2018-12-24
     if a1[2].starts_with(FILE_PID_PREFIX) {
         date_str1 = a1[3];
         date_str2 = a2[3];
+        date_idx = 3;
     }
 
     // compare date first
@@ -147,8 +149,10 @@ fn filename_comparator(file1: &PathBuf, file2: &PathBuf) -> Ordering {
         return date_str1.cmp(date_str2);
     }
 
-    // same date, compare the file number
-    name1.cmp(name2)
+    // same date, compare the file number as a number (".10" comes after ".9"; no number = 0)
+    let no1 = a1.get(date_idx + 1).and_then(|x| x.parse::<u64>().ok()).unwrap_or(0);
+    let no2 = a2.get(date_idx + 1).and_then(|x| x.parse::<u64>().ok()).unwrap_or(0);
+    no1.cmp(&no2).then_with(|| name1.cmp(name2))
 }
 
 #[cfg(test)]
